@@ -1026,6 +1026,8 @@ class sptensor:
             # Check that the shapes match
             if not self.shape == other.shape:
                 assert False, "Must be tensors of the same shape"
+            if self.nnz == 0 or other.nnz == 0:
+                return sptensor(shape=self.shape)
 
             C = sptensor.from_aggregator(
                 np.vstack((self.subs, other.subs)),
@@ -1131,6 +1133,10 @@ class sptensor:
             assert False, "Logical Or requires tensors of the same size"
 
         if isinstance(other, ttb.sptensor):
+            if self.nnz == 0 or other.nnz == 0:
+                C = (other if self.nnz == 0 else self).ones()
+                C.vals = C.vals.astype(self.vals.dtype)
+                return C
             C = sptensor.from_aggregator(
                 np.vstack((self.subs, other.subs)),
                 np.ones((self.subs.shape[0] + other.subs.shape[0], 1)),
@@ -1201,6 +1207,10 @@ class sptensor:
             # Check shape consistency
             if self.shape != other.shape:
                 assert False, "Logical XOR requires tensors of the same size"
+            if self.nnz == 0 or other.nnz == 0:
+                result = (other if self.nnz == 0 else self).ones()
+                result.vals = result.vals.astype(self.vals.dtype)
+                return result
 
             subs = np.vstack((self.subs, other.subs))
             result = ttb.sptensor.from_aggregator(
